@@ -14,6 +14,7 @@ from pandapipes.idx_node import PINIT
 from pandapipes.idx_branch import MDOTINIT
 
 ID = "C12"
+CASE_WEIGHT = 4   # relative cost of one case (pool sizing)
 LEVEL = "model_checking"
 RULE = ("state = history of operations applied to one net object (3 nets: water mesh with NaN outer diameters, std-type "
         "pipes, junction-pipe valve and out-of-service pipe; gas net with compressor; heat loop with circulation pump and "
